@@ -30,7 +30,8 @@ type labeling = MT | EVP | IDX | EVT
 
 type forest = {
   fdom : string; rel : bool; range : range; lab : labeling; rule : rule;
-  sizes : int array;                 (* variable sizes, var 1 first *)
+  sizes : int array;                 (* sizes by level, level 1 first *)
+  order : int array;                 (* order.(k-1) = variable at level k *)
 }
 
 let nlev f = if f.rel then 2 * Array.length f.sizes else Array.length f.sizes
@@ -52,6 +53,8 @@ let fors : (string, forest) Hashtbl.t = Hashtbl.create 7
 let edges : (string, string * dd) Hashtbl.t = Hashtbl.create 31   (* name -> forest, tree *)
 
 let idxsets : (string, string * dd) Hashtbl.t = Hashtbl.create 7   (* index set name -> source set *)
+
+let xfiles : (string, string * dd option list) Hashtbl.t = Hashtbl.create 7
 
 let line = ref 0
 let emit s = Printf.printf "@%d %s\n" !line s
@@ -281,7 +284,8 @@ let run toks =
               range = (match rg with "bool" -> RBool | "int" -> RInt | _ -> RReal);
               lab = (match lb with "mt" -> MT | "evp" -> EVP | "idx" -> IDX | _ -> EVT);
               rule = (match rl with "fr" -> FR | "qr" -> QR | _ -> IR);
-              sizes = Hashtbl.find doms d } in
+              sizes = Hashtbl.find doms d;
+              order = Array.init (Array.length (Hashtbl.find doms d)) (fun i -> i + 1) } in
     Hashtbl.replace fors fnm f
   | "coll" :: a :: fn :: mode :: dv :: rest when (try (get_forest fn).lab = EVP with _ -> false) ->
     Hashtbl.remove edges a; Hashtbl.remove evtabs a;
@@ -520,6 +524,102 @@ let run toks =
           if bad = [] then emit obs
           else emit ("audit FAILED " ^ Stdlib.String.concat " " (List.map (fun (c, h) ->
               Printf.sprintf "%s@%d" (clause_name (int_of_nat c)) (int_of_z h)) bad))))
+  | "write" :: id :: fn :: roots ->
+    (* the model of the file is the list of functions written *)
+    let l = List.map (fun r ->
+        match Hashtbl.find_opt edges r with
+        | Some (fn', t) when fn' = fn -> Some t
+        | _ -> None) roots in
+    Hashtbl.replace xfiles id (fn, l);
+    emit "write ok"
+  | "read" :: id :: fn :: names ->
+    List.iter (fun n -> Hashtbl.remove edges n; Hashtbl.remove evtabs n) names;
+    let (src, l) = try Hashtbl.find xfiles id with Not_found -> raise Unsupported in
+    let fs = get_forest src and ft = get_forest fn in
+    if fs.rel <> ft.rel || fs.range <> ft.range || fs.lab <> ft.lab || fs.rule <> ft.rule
+       || fs.sizes <> ft.sizes then raise Unsupported;
+    List.iteri (fun i n ->
+        match List.nth_opt l i with
+        | Some (Some t) -> set_edge n fn t
+        | _ -> ()) names;
+    emit (Printf.sprintf "read roots=%d" (List.length l))
+  | "readnew" :: id :: fn :: d :: names ->
+    List.iter (fun n -> Hashtbl.remove edges n; Hashtbl.remove evtabs n) names;
+    let (src, l) = try Hashtbl.find xfiles id with Not_found -> raise Unsupported in
+    let fs = get_forest src in
+    if fs.fdom <> d then raise Unsupported;
+    (* the file does not record the reduction rule: the new forest gets the
+       library default (fully reduced sets, identity-reduced relations) *)
+    let fnew = { fs with fdom = d; rule = (if fs.rel then IR else FR) } in
+    Hashtbl.replace fors fn fnew;
+    let lv = nat_of_int (nlev fs) in
+    List.iteri (fun i n ->
+        match List.nth_opt l i with
+        | Some (Some t) -> set_edge n fn (apply1 (szf fnew) (fun v -> v) fs.rule fnew.rule lv O t)
+        | _ -> ()) names;
+    emit (Printf.sprintf "read roots=%d" (List.length l))
+  | "reorder" :: fn :: vars ->
+    let f = get_forest fn in
+    if f.lab <> MT then begin
+      (* not modelled: forget the edges of this forest *)
+      Hashtbl.iter (fun n (fn', _) -> if fn' = fn then Hashtbl.remove edges n) (Hashtbl.copy edges);
+      Hashtbl.iter (fun n (fn', _) -> if fn' = fn then Hashtbl.remove evtabs n) (Hashtbl.copy evtabs);
+      raise Unsupported
+    end;
+    (* the order actually reached is read from the implementation's observation
+       (C13 is about the functions of held edges under whatever order results) *)
+    let vars = match Hashtbl.find_opt impl_obs !line with
+      | Some obs when Stdlib.String.length obs > 8 && Stdlib.String.sub obs 0 8 = "reorder " ->
+        List.tl (split obs)
+      | _ -> vars in
+    let neworder = Array.of_list (List.map int_of_string vars) in
+    let k = Array.length f.order in
+    (* variable sizes by variable number *)
+    let vsize = Array.make (k + 1) 0 in
+    Array.iteri (fun i v -> vsize.(v) <- f.sizes.(i)) f.order;
+    let newsizes = Array.map (fun v -> vsize.(v)) neworder in
+    (* src: old level j (variable f.order.(j-1)) -> new level *)
+    let newlevel_of_var = Array.make (k + 1) 0 in
+    Array.iteri (fun i v -> newlevel_of_var.(v) <- i + 1) neworder;
+    let src_var j = if j >= 1 && j <= k then newlevel_of_var.(f.order.(j - 1)) else j in
+    let src : nat -> nat = fun p ->
+      let p = int_of_nat p in
+      if f.rel then
+        (if p < 1 || p > 2 * k then nat_of_int p
+         else if p land 1 = 0 then nat_of_int (2 * src_var (p / 2))
+         else nat_of_int (2 * src_var ((p + 1) / 2) - 1))
+      else nat_of_int (src_var p) in
+    let f' = { f with sizes = newsizes; order = neworder } in
+    Hashtbl.replace fors fn f';
+    let l = nat_of_int (nlev f') in
+    Hashtbl.iter (fun n (fn', t) ->
+        if fn' = fn then Hashtbl.replace edges n (fn, permute_dd (szf f') f'.rule l src t))
+      (Hashtbl.copy edges);
+    emit (Stdlib.String.concat " " ("reorder" :: List.map string_of_int (Array.to_list neworder)))
+  | "satpre" :: r :: fn :: _mode :: _split :: s0 :: evs ->
+    (* reachability under the union of the events (the splitting option and the
+       grouping cannot matter) *)
+    Hashtbl.remove edges r; Hashtbl.remove evtabs r;
+    let fr = get_forest fn in
+    let (fsn, ts) = get_edge s0 in
+    let fs = get_forest fsn in
+    let evl = List.map get_edge evs in
+    (match evl with
+     | [] -> raise Unsupported
+     | (fmn, _) :: _ ->
+       let fm = get_forest fmn in
+       if List.exists (fun (n, _) -> n <> fmn) evl then raise Unsupported;
+       if fs.rel || (not fm.rel) || fr.rel || fs.fdom <> fm.fdom || fr.fdom <> fs.fdom then raise Unsupported;
+       if fs.lab <> MT || fm.lab <> MT || fr.lab <> MT then raise Unsupported;
+       if fs.range <> RBool || fm.range <> RBool || fr.range <> RBool then raise Unsupported;
+       let l2 = nat_of_int (nlev fm) in
+       let un = List.fold_left (fun acc (_, t) ->
+           apply2 (szf fm) (scalar2 OUnion (z_of_int 1) (z_of_int 1)) fm.rule fm.rule fm.rule l2 O acc t)
+           (T Z0) evl in
+       let k = nat_of_int (Array.length fs.sizes) in
+       (match reach_dd (szf fs) k fs.rule fm.rule fr.rule ts un with
+        | Some t -> set_edge r fn t; show r
+        | None -> raise Unsupported))
   | "iter" :: a :: mask ->
     let (fn, t) = get_edge a in
     let f = get_forest fn in
